@@ -51,6 +51,7 @@ type c01Model struct {
 	SvcMnt   bool      // web-1
 	KV       int       // index into c01KVs
 	Alt      bool      // web-1 re-registered (same node and id) with another prefix tag and port
+	CatDown  bool      // fault: catalog lookups (/v1/catalog/service/<name>) answer 500
 }
 
 // tag and port an instance currently advertises
@@ -187,6 +188,11 @@ func (c *c01Consul) serve(w http.ResponseWriter, r *http.Request) {
 		json.NewEncoder(w).Encode(c.m.checks())
 	case strings.HasPrefix(p, "/v1/catalog/service/"):
 		name := strings.TrimPrefix(p, "/v1/catalog/service/")
+		if c.m.CatDown {
+			w.WriteHeader(500)
+			w.Write([]byte("No cluster leader"))
+			return
+		}
 		var out []map[string]interface{}
 		for i, in := range c01Insts {
 			if in.svc == name && c.m.Reg[i] {
@@ -293,6 +299,7 @@ func c01Events() []c01Event {
 		c01Event{"toggle-node-maintenance:n1", func(m c01Model) c01Model { m.NodeMnt = !m.NodeMnt; return m }},
 		c01Event{"toggle-service-maintenance:web-1", func(m c01Model) c01Model { m.SvcMnt = !m.SvcMnt; return m }},
 		c01Event{"re-register-with-other-prefix-and-port:web-1", func(m c01Model) c01Model { m.Alt = !m.Alt; return m }},
+		c01Event{"toggle-fault:catalog-lookups-fail", func(m c01Model) c01Model { m.CatDown = !m.CatDown; return m }},
 	)
 	for k := range c01KVs {
 		k := k
@@ -354,7 +361,7 @@ func TestVerifC01Pipeline(t *testing.T) {
 		accepted []string
 	}{{"one/passing", false, []string{"passing"}}, {"all/passing", true, []string{"passing"}}, {"one/passing+warning", false, []string{"passing", "warning"}}, {"all/passing+warning", true, []string{"passing", "warning"}}}
 	L := ev.Begin("C01", "c01-pipeline", "model_checking",
-		"explicit-state BFS over registry histories through the real pipeline consul.NewBackend -> ServiceMonitor.Watch / watchKV -> main.watchBackend -> route.SetTable against an in-process fake Consul HTTP API (agent/self, health/state/any and kv with blocking queries on the index, catalog/service): 3 instances of 2 services on 2 nodes; events: (de)register, check flips to passing/warning/critical, a second check for strict mode, agent down/up per node, node and service maintenance, re-registration of an instance with another prefix and port, KV override in {none, route del, route add, route weight, syntax error, two routes with a register= alias}; per checksRequired mode and accepted-status list. After every event the harness waits for causal quiescence (both watchers parked on blocking queries at the current index, then one state-preserving index bump). invariant: active table == instances healthy under the stated rule + KV commands on top; with an invalid KV text the last good table stays. non-trivial = transition that changes the set of healthy instances or the KV text")
+		"explicit-state BFS over registry histories through the real pipeline consul.NewBackend -> ServiceMonitor.Watch / watchKV -> main.watchBackend -> route.SetTable against an in-process fake Consul HTTP API (agent/self, health/state/any and kv with blocking queries on the index, catalog/service): 3 instances of 2 services on 2 nodes; events: (de)register, check flips to passing/warning/critical, a second check for strict mode, agent down/up per node, node and service maintenance, re-registration of an instance with another prefix and port, a fault toggle (catalog lookups answer 500; while it is on only 'no unhealthy instance is routed' is asserted), KV override in {none, route del, route add, route weight, syntax error, two routes with a register= alias}; per checksRequired mode and accepted-status list. After every event the harness waits for causal quiescence (both watchers parked on blocking queries at the current index, then one state-preserving index bump). invariant: active table == instances healthy under the stated rule + KV commands on top; with an invalid KV text the last good table stays. non-trivial = transition that changes the set of healthy instances or the KV text")
 	maxDepth := 3
 	if ev.Thorough() {
 		maxDepth = 4
@@ -433,6 +440,41 @@ func TestVerifC01Pipeline(t *testing.T) {
 					L.Outcome(got)
 					if transitions%37 == 0 {
 						L.Sample(d)
+					}
+					if nm.CatDown && !valid {
+						// an invalid override text rejects the whole configuration: nothing is installed (C02), fault or not
+						if got != nd.lastG {
+							L.Violation("table-changed-although-config-invalid", d)
+							continue
+						}
+						k := nm.key() + "|" + got
+						if !seen[k] {
+							seen[k] = true
+							states++
+							next = append(next, c01Node{hist, nm, got})
+						}
+						continue
+					}
+					if nm.CatDown {
+						// while fabio cannot read the catalog the first clause is not owed (the registry's view is
+						// not available to it); the second one is: no instance observed unhealthy may be routed
+						bad := false
+						for i, in := range c01Insts {
+							if _, port := nm.adv(i); !nm.healthy(i, v.strict, v.accepted) && strings.Contains(got, fmt.Sprintf("%s:%d", in.addr, port)) {
+								bad = true
+							}
+						}
+						if bad {
+							L.Violation("unhealthy-instance-still-routed/catalog-lookups-failing", d)
+							continue
+						}
+						k := nm.key() + "|" + got
+						if !seen[k] {
+							seen[k] = true
+							states++
+							next = append(next, c01Node{hist, nm, got})
+						}
+						continue
 					}
 					if got != lastG {
 						kind := "active-table-differs-from-healthy-instances-plus-overrides"
